@@ -82,17 +82,24 @@ def monitored(fn, budget, *a, **k):
 
 
 class ArgGuard:
-    """M4: digests of the arguments before / after; ndarray arguments are handed over read-only."""
+    """M4: digests of the arguments before / after; ndarray arguments are handed over read-only.  The (more expensive)
+    digest of the dsw module globals is taken on every GLOBALS_EVERY-th guard (every guard in C20)."""
+    GLOBALS_EVERY = 25
+    _n = 0
+    globals_checked = 0
 
     def __init__(self, **named):
         self.named = named
         self.before = {k: guards.digest(v) for k, v in named.items()}
-        self.g0 = guards.globals_digest()
+        ArgGuard._n += 1
+        self.g0 = guards.globals_digest() if ArgGuard._n % ArgGuard.GLOBALS_EVERY == 0 else None
 
     def changed(self):
         out = [k for k, v in self.named.items() if guards.digest(v) != self.before[k]]
-        if guards.globals_digest() != self.g0:
-            out.append("<module globals of dsw>")
+        if self.g0 is not None:
+            ArgGuard.globals_checked += 1
+            if guards.globals_digest() != self.g0:
+                out.append("<module globals of dsw>")
         return out
 
 
